@@ -40,6 +40,68 @@ def _logged_read(filename):
 MmapedDict.read_all_values_from_file = staticmethod(_logged_read)
 
 
+# A dead worker's live gauge files may vanish between the collector's directory listing and its reads.  When armed, the
+# hook runs ONCE, right after the first listing of the multiprocess directory that the code under test performs
+# (glob.glob / glob.iglob / os.listdir are wrapped), or at the latest just before the first file is read.
+VANISH = {'armed': None, 'fired': None}
+_ORIG_GLOB, _ORIG_IGLOB, _ORIG_LISTDIR = glob.glob, glob.iglob, os.listdir
+
+
+def _fire_vanish(where):
+    action = VANISH['armed']
+    if action is not None:
+        VANISH['armed'] = None
+        VANISH['fired'] = where
+        action()
+
+
+def _hook_glob(*a, **k):
+    res = _ORIG_GLOB(*a, **k)
+    _fire_vanish('glob')
+    return res
+
+
+def _hook_iglob(*a, **k):
+    res = list(_ORIG_IGLOB(*a, **k))
+    _fire_vanish('iglob')
+    return iter(res)
+
+
+def _hook_listdir(*a, **k):
+    res = _ORIG_LISTDIR(*a, **k)
+    _fire_vanish('listdir')
+    return res
+
+
+glob.glob, glob.iglob, os.listdir = _hook_glob, _hook_iglob, _hook_listdir
+_PLAIN_READ = _logged_read
+
+
+def _read_with_vanish(filename):
+    _fire_vanish('first-read')
+    return _PLAIN_READ(filename)
+
+
+MmapedDict.read_all_values_from_file = staticmethod(_read_with_vanish)
+
+# Two threads after an identity change: the re-binding thread is paused inside the store's read_value (when armed) so that
+# a second thread can try to run while the first is half-way through re-binding.
+import threading  # noqa: E402
+RACE = {'armed': False, 'paused': threading.Event(), 'resume': threading.Event(), 'thread': None}
+_ORIG_READ_VALUE = MmapedDict.read_value
+
+
+def _read_value_hook(self, key):
+    if RACE['armed'] and threading.current_thread() is RACE['thread']:
+        RACE['armed'] = False
+        RACE['paused'].set()
+        RACE['resume'].wait(5.0)
+    return _ORIG_READ_VALUE(self, key)
+
+
+MmapedDict.read_value = _read_value_hook
+
+
 def observed_order(path, fallback):
     """the files in the order the collector just read them, if that is a permutation of the directory listing"""
     seen = []
@@ -52,7 +114,7 @@ def observed_order(path, fallback):
 
 
 def read_dir(path, order=None):
-    files = order if order is not None else glob.glob(os.path.join(path, '*.db'))
+    files = order if order is not None else _ORIG_GLOB(os.path.join(path, '*.db'))
     out = []
     for f in files:
         out.append([os.path.basename(f), [[k, v, ts] for k, v, ts, _pos in _ORIG_READ(f)]])
@@ -96,6 +158,39 @@ def target(w, m, lv):
     return obj.labels(*lv) if lv else obj
 
 
+def run_race(tgt, a, b):
+    """two threads issue tgt.inc(a) and tgt.inc(b); the first is pre-empted inside the store's read_value (i.e. inside
+    the re-binding that follows an identity change, if one is pending) and the second is given 0.25 s to run there"""
+    errs = []
+
+    def work(x):
+        try:
+            tgt.inc(x)
+        except BaseException as e:      # noqa
+            errs.append(type(e).__name__ + ': ' + str(e)[:100])
+    ta = threading.Thread(target=work, args=(a,))
+    tb = threading.Thread(target=work, args=(b,))
+    RACE['paused'].clear()
+    RACE['resume'].clear()
+    RACE['thread'] = ta
+    RACE['armed'] = True
+    ta.start()
+    paused = RACE['paused'].wait(0.5)
+    tb.start()
+    tb.join(0.25)
+    b_ran_inside = paused and not tb.is_alive()
+    RACE['resume'].set()
+    ta.join(5.0)
+    tb.join(5.0)
+    RACE['armed'] = False
+    RACE['thread'] = None
+    o = {'paused': bool(paused), 'second_thread_ran_during_rebind': bool(b_ran_inside)}
+    if errs:
+        o['exc'] = 'ThreadError'
+        o['msg'] = '; '.join(errs)
+    return o
+
+
 def run_case(case):
     path = tempfile.mkdtemp(dir=BASE)
     os.environ['PROMETHEUS_MULTIPROC_DIR'] = path
@@ -120,15 +215,34 @@ def run_case(case):
                     mark_process_dead(op[1])
                     o = {'before': before, 'after': sorted(os.listdir(path))}
                 elif kind == 'collect':
-                    listing = glob.glob(os.path.join(path, '*.db'))
+                    listing = _ORIG_GLOB(os.path.join(path, '*.db'))
                     _files, before = read_dir(path, listing)
                     del READ_LOG[:]
                     fams = fams_out(registry.collect())
                     order = observed_order(path, listing)
                     by_name = dict(before)
                     o = {'files': [[os.path.basename(f), by_name[os.path.basename(f)]] for f in order], 'fams': fams}
+                elif kind == 'collect_vanish':
+                    # mark_process_dead(pid) strikes between the collector's listing and its reads
+                    listing = _ORIG_GLOB(os.path.join(path, '*.db'))
+                    _files, before = read_dir(path, listing)
+                    dir_before = sorted(_ORIG_LISTDIR(path))
+                    del READ_LOG[:]
+                    dead_pid = op[1]
+                    VANISH['fired'] = None
+                    VANISH['armed'] = lambda: mark_process_dead(dead_pid)
+                    try:
+                        fams = fams_out(registry.collect())
+                    finally:
+                        VANISH['armed'] = None
+                    dir_after = sorted(_ORIG_LISTDIR(path))
+                    order = observed_order(path, listing)
+                    by_name = dict(before)
+                    o = {'files': [[os.path.basename(f), by_name[os.path.basename(f)]] for f in order
+                                   if os.path.basename(f) in dir_after],
+                         'fams': fams, 'before': dir_before, 'after': dir_after, 'fired': VANISH['fired']}
                 elif kind == 'merge':
-                    files = glob.glob(os.path.join(path, '*.db'))
+                    files = _ORIG_GLOB(os.path.join(path, '*.db'))
                     random.Random(op[1]).shuffle(files)
                     files, content = read_dir(path, files)
                     o = {'files': content, 'fams': fams_out(MultiProcessCollector.merge(files, accumulate=True))}
@@ -146,6 +260,11 @@ def run_case(case):
                     elif kind == 'set':
                         CLOCK[0] = op[5]
                         target(w, op[2], op[3]).set(op[4])
+                    elif kind == 'settime':
+                        CLOCK[0] = op[4]
+                        target(w, op[2], op[3]).set_to_current_time()
+                    elif kind == 'race':
+                        o = run_race(target(w, op[2], op[3]), op[4], op[5])
                     elif kind == 'obs':
                         target(w, op[2], op[3]).observe(op[4])
                     elif kind == 'get':
@@ -166,7 +285,7 @@ def run_case(case):
             finally:
                 values.ValueClass = saved_cls
             if snap:
-                o['snap'] = dict(read_dir(path, sorted(glob.glob(os.path.join(path, '*.db'))))[1])
+                o['snap'] = dict(read_dir(path, sorted(_ORIG_GLOB(os.path.join(path, '*.db'))))[1])
             obs.append(o)
     finally:
         os.environ['PROMETHEUS_MULTIPROC_DIR'] = BASE
@@ -223,6 +342,9 @@ def run_real_case(case):
                                 elif k2 == 'set':
                                     CLOCK[0] = wop[5]
                                     target(me, wop[2], wop[3]).set(wop[4])
+                                elif k2 == 'settime':
+                                    CLOCK[0] = wop[4]
+                                    target(me, wop[2], wop[3]).set_to_current_time()
                                 elif k2 == 'obs':
                                     target(me, wop[2], wop[3]).observe(wop[4])
                                 os.write(aw, b'.')
@@ -309,6 +431,9 @@ def run_fork_case(case):
             elif kind == 'set':
                 CLOCK[0] = op[5]
                 tgt(op).set(op[4])
+            elif kind == 'settime':
+                CLOCK[0] = op[4]
+                tgt(op).set_to_current_time()
             elif kind == 'obs':
                 tgt(op).observe(op[4])
 
@@ -329,6 +454,34 @@ def run_fork_case(case):
                         os._exit(1 if st else 0)
                     failed |= st
                     break
+                if op[0] == 'fork_late':
+                    # fork; the PARENT first executes the next k operations (e.g. creates new keys in the shared per-type
+                    # file), only then does the child execute the n operations after those; the parent waits and goes on
+                    k, n = op[1], op[2]
+                    gr, gw = os.pipe()
+                    sys.stdout.flush()
+                    child = os.fork()
+                    if child == 0:
+                        code = 0
+                        try:
+                            os.close(gw)
+                            os.read(gr, 1)
+                            for op2 in ops[i + 1 + k:i + 1 + k + n]:
+                                do(op2)
+                        except BaseException:
+                            code = 1
+                        os._exit(code)
+                    os.close(gr)
+                    try:
+                        for op2 in ops[i + 1:i + 1 + k]:
+                            do(op2)
+                    finally:
+                        os.write(gw, b'.')
+                        os.close(gw)
+                        _p, st = os.waitpid(child, 0)
+                    failed |= st
+                    i += 1 + k + n
+                    continue
                 if op[0] == 'fork_side':
                     n = op[1]
                     sys.stdout.flush()
